@@ -222,14 +222,9 @@ def check(col: Collector, tier: str):
     col.floor("C13.R6", 2)
     for cname in ("set_var", "push_back"):
         e = stm.classes[cname].methods["emit"]
-        lines = [c for c in ast.walk(e.node) if isinstance(c, ast.Call) and call_name(c) == "add_line"]
-        casts = [c for c in lines if "static_cast<" in src(c)]
-        dc = defs_of(e.node, "do_conversion")
-        ok = len(lines) == 2 and len(casts) == 1 and len(dc) == 1 and ".type != " in src(dc[0])
-        if ok:
-            sh = shape(parts(e.node, casts[0].args[0]))
-            ok = any("static_cast<" in x for x in sh) and any(".type}" in x for x in sh)
-        col.add("C13.R6", f"{cname}.emit", "cast-to-target-type-on-mismatch", ok, "", e.loc)
+        from sa.props._tr import cast_exactly_on_type_mismatch
+        ok, why6 = cast_exactly_on_type_mismatch(e.node)
+        col.add("C13.R6", f"{cname}.emit", "cast-to-target-type-on-mismatch", ok, why6, e.loc)
 
     # ------------------------------------------------------------ R7 power
     col.floor("C13.R7", 3)
